@@ -371,7 +371,113 @@ def run(a, res):
                 res.grey("simultaneous-close-both-directions-truncated")
         return "ok", (cl.end, sv.end)
 
+    # ---- long one-way flows against a squid with a short read_timeout: while bytes keep moving in ONE direction (gaps far
+    # below the timeout) the tunnel must stay up, although the other direction is silent for longer than the timeout
+    READ_TIMEOUT = 3
+    lab2 = start_lab(a, res, handler=None, conf=f"read_timeout {READ_TIMEOUT} seconds\n")
+
+    def longflow(c, direction):
+        """returns (outcome, detail): ok | skip | violation-candidate"""
+        data = payload("lf", c, 60 * 400)
+        ls = socket.socket(socket.AF_INET, socket.SOCK_STREAM)
+        ls.bind(("127.0.0.1", 0)); ls.listen(2); ls.settimeout(IO_TIMEOUT)
+        port = ls.getsockname()[1]
+        st = {"srv": None}
+
+        def acc():
+            try:
+                st["srv"], _ = ls.accept()
+            except OSError:
+                pass
+        th = threading.Thread(target=acc, daemon=True); th.start()
+        try:
+            sock = socket.create_connection(("127.0.0.1", lab2.sq.port), timeout=IO_TIMEOUT)
+            sock.sendall(f"CONNECT 127.0.0.1:{port} HTTP/1.1\r\nHost: 127.0.0.1:{port}\r\nX-Verif-Req: {c['seed']}.{c['n']}.lf\r\n\r\n".encode())
+            buf = b""
+            while b"\r\n\r\n" not in buf:
+                b = sock.recv(4096)
+                if not b:
+                    break
+                buf += b
+        except OSError as e:
+            ls.close()
+            return "skip", "connect: " + repr(e)
+        th.join(IO_TIMEOUT)
+        srv = st["srv"]
+        ls.close()
+        if srv is None or not buf.startswith(b"HTTP/1.1 200"):
+            sock.close()
+            return "skip", "no tunnel"
+        tx, rx = (sock, srv) if direction == "c2s" else (srv, sock)
+        got = bytearray()
+        rx_end = []
+
+        def reader():
+            rx.settimeout(IO_TIMEOUT)
+            try:
+                while True:
+                    b = rx.recv(65536)
+                    if not b:
+                        rx_end.append("eof"); return
+                    got.extend(b)
+            except ConnectionResetError:
+                rx_end.append("reset")
+            except OSError as e:
+                rx_end.append("error:" + repr(e))
+        rt = threading.Thread(target=reader, daemon=True); rt.start()
+        sent = 0
+        max_gap = 0.0
+        err = None
+        last = time.time()
+        for i in range(60):                       # 60 x 400 bytes, one piece every 0.12 s: about 7 s > 2 x read_timeout
+            try:
+                tx.sendall(data[i * 400:(i + 1) * 400])
+            except OSError as e:
+                err = repr(e)
+                break
+            now = time.time()
+            max_gap = max(max_gap, now - last)
+            last = now
+            sent += 400
+            time.sleep(0.12)
+        max_gap = max(max_gap, time.time() - last)
+        try:
+            tx.shutdown(socket.SHUT_WR)
+        except OSError:
+            pass
+        rt.join(IO_TIMEOUT)
+        for x in (sock, srv):
+            try:
+                x.close()
+            except OSError:
+                pass
+        if max_gap > READ_TIMEOUT / 2.0:
+            return "skip", f"sender stalled for {max_gap:.1f}s (machine load): not judged"
+        if bytes(got) != data[:len(got)]:
+            return "violation", f"{direction}: receiver got {len(got)} bytes that are not a prefix of the stream"
+        if err is not None or len(got) < len(data):
+            return "violation", (f"{direction}: one-way flow of {len(data)} bytes in 400-byte pieces every 0.12 s (largest gap {max_gap:.2f}s, read_timeout {READ_TIMEOUT}s, other direction silent): "
+                                 f"sender error={err} after {sent} bytes, receiver got {len(got)} bytes then {rx_end}; neither endpoint had closed")
+        return "ok", None
+
+    def one_longflow(c):
+        direction = "c2s" if (c["n"] // 100) % 2 == 0 else "s2c"
+        outcome, detail = longflow(c, direction)
+        if outcome == "violation":
+            res.count("longflow_first_attempt_failed")
+            outcome, detail = longflow(c, direction)
+            if outcome == "violation":
+                res.violation("tunnel-closed-while-one-way-flow-continues:" + direction, detail + "; reproduced on re-run", wit(c))
+                return
+        res.count("longflow_" + outcome)
+        if outcome == "skip":
+            res.note("longflow not judged: " + str(detail))
+        else:
+            res.feature("longflow", direction, outcome)
+
     def one(c):
+        if c["n"] % 100 == 7 and not os.environ.get("C06_NO_LONGFLOW"):
+            one_longflow(c)
         outcome, detail = attempt(c)
         if outcome == "stall":
             res.count("stall_first_attempt")
@@ -396,6 +502,7 @@ def run(a, res):
         run_cases(a, res, gen, one, threads=8)
     finally:
         lab.finish()
+        lab2.finish()
     if not a.replay_data:
         if res.counters.get("tunnels_judged", 0) < max(1, a.cases // 2):
             res.inconclusive.append("fewer than half of the CONNECT cases produced a judged tunnel")
